@@ -2,7 +2,10 @@ module gosym
 
 go 1.24.0
 
-require golang.org/x/tools v0.29.0
+require (
+	github.com/itchyny/timefmt-go v0.1.8
+	golang.org/x/tools v0.29.0
+)
 
 require (
 	golang.org/x/mod v0.22.0 // indirect
